@@ -13,6 +13,9 @@ class C10Rotating(Scenario):
         cfg = structs.ExpandingSubject.gen_cfg(rng)
         cfg.update({"est": rng.between(1, 5), "mqs": rng.between(1, 4), "steps": rng.between(4, self.max_steps),
                     "explicit": rng.chance(1, 2), "universe": rng.choice((8, 16, 40, 80))})
+        if rng.chance(1, 25):
+            cfg.update({"est": rng.choice((257, 300)), "mqs": rng.between(1, 3), "universe": 1500, "rate": 0.05, "big": True,
+                        "steps": rng.between(6, 14)})
         if common.geometry(cfg["est"], cfg["rate"]) is None:
             cfg["rate"] = 0.1
         return cfg
@@ -23,6 +26,9 @@ class C10Rotating(Scenario):
             return None
         self.n_gen += 1
         r = rng.below(100)
+        if cfg.get("big") and r < 70:
+            self.burst_at = getattr(self, "burst_at", 0) + 160
+            return {"op": "burst", "k0": self.burst_at - 160, "cnt": rng.choice((100, 160))}
         if r < 84 or not cfg["explicit"]:
             return {"op": "add", "k": rng.below(cfg["universe"]), "force": rng.chance(1, 8)}
         if r < 92:
@@ -48,7 +54,22 @@ class C10Rotating(Scenario):
         op = step["op"]
         ctx.count("op." + op)
         sig = {"class": "RotatingBloomFilter", "op": op}
-        if op == "add":
+        if op == "burst":
+            # many distinct keys one after the other (populations of a few hundred); the bookkeeping is per key
+            for j in range(step["cnt"]):
+                k = 100 + step["k0"] + j
+                key = seams.key_of(k)
+                was = o.check(key)
+                o.add(key)
+                if not was:
+                    for kk in self.since:
+                        self.since[kk] += 1
+                    self.since[k] = 0
+                    if not o.check(key):
+                        raise Violation("absent_after_add", f"key {k} was absent, was added and is still absent", sig)
+            window0 = (mqs - 1) * est
+            self.since = {kk: n for kk, n in self.since.items() if n <= window0 + 5}
+        elif op == "add":
             key = seams.key_of(step["k"])
             was = o.check(key)
             eff = step["force"] or not was
